@@ -21,6 +21,7 @@ def first_line(path):
 
 def main():
     rows = []
+    stats = {}
     for mp in sorted(glob.glob(os.path.join(HERE, "seeded", "*", "meta.json"))):
         m = json.load(open(mp))
         d = os.path.dirname(mp)
@@ -31,12 +32,22 @@ def main():
         keys = []
         for k in caught:
             keys += [x.split(" x")[0] for x in det[k]["violation_keys"][:2]]
+        h = m.get("history", "")
+        first = (
+            "harness error; check corrected" if "HARNESS" in h
+            else "missed; check strengthened" if h.startswith("first run: NOT caught")
+            else "not a violation of the statement as read (left open)" if h.startswith("NOT caught, deliberately") or h.startswith("NOT caught, not claimed")
+            else "missed by its own check, caught by another" if h.startswith("NOT caught by")
+            else "caught"
+        )
+        stats[first] = stats.get(first, 0) + 1
         rows.append(
-            "| %s | %s | %s | %s | %s | %s | %s |"
+            "| %s | %s | %s | %s | %s | %s | %s | %s |"
             % (
                 m["id"],
                 m["property"],
                 "yes" if m.get("confirmed") else "NO",
+                first,
                 m.get("needs") or first_line(os.path.join(d, "notes.md")),
                 ", ".join(caught) or "-",
                 ", ".join(missed + [e + " (harness error)" for e in err]) or "-",
@@ -44,10 +55,10 @@ def main():
             )
         )
     out = [
-        "| change | property | confirmed (baseline 61/61, demo fails only when patched) | what it is / needs | caught by | not caught by | first finding keys |",
-        "|---|---|---|---|---|---|---|",
+        "| change | property | confirmed (baseline 61/61, demo fails only when patched) | first run | what it is / needs | caught by (now) | not caught by | first finding keys |",
+        "|---|---|---|---|---|---|---|---|",
     ] + rows
-    text = "\n".join(out) + "\n"
+    text = "\n".join(out) + "\n\nFirst-run outcome over %d changes: %s\n" % (len(rows), "; ".join("%s: %d" % kv for kv in sorted(stats.items())))
     print(text)
     if "--write" in sys.argv:
         with open(os.path.join(HERE, "seeded", "README.md"), "w") as f:
